@@ -131,6 +131,12 @@ impl Prop for C14 {
                 }
             })
             .collect();
+        let mut units: Vec<Unit14> = units;
+        if units.len() >= 2 && g.chance(1, 6) {
+            // the same completion twice in a row (a client must still see two)
+            let i = g.usize_in(1, units.len() - 1);
+            units[i] = units[i - 1].clone();
+        }
         let error_end = if g.chance(1, 6) { Some((crate::gens::gen_error_kind(g), crate::gens::gen_error_msg(g))) } else { None };
         Case { units, bin: g.coin(), direct_terminal: g.coin(), error_end }
     }
